@@ -86,7 +86,7 @@ def f32Round (n e : Nat) : Nat × Int :=
     if q' = 2 ^ 24 then (2 ^ 23, (sh : Int) + 1 - e) else (q', (sh : Int) - e)
 
 /-- IEEE-754 single bit pattern of the `float` nearest to `num / 2^e`
-    (normal range only; the ranges admitted by the protocol stay far inside it). -/
+    (normal range only; the ranges the protocol allows stay far inside it). -/
 def f32OfDyadic (num : Int) (e : Nat) : Nat :=
   if num = 0 then 0 else
   let (m, q) := f32Round num.natAbs e
